@@ -1,6 +1,7 @@
 use crate::Prop;
 pub mod c01;
 pub mod c02;
+pub mod c03;
 pub mod c04;
 pub mod c20;
 pub mod evalutil;
@@ -9,6 +10,7 @@ pub fn lookup(id: &str) -> Option<&'static dyn Prop> {
     Some(match id {
         "C01" => &c01::C01,
         "C02" => &c02::C02,
+        "C03" => &c03::C03,
         "C04" => &c04::C04,
         "C20" => &c20::C20,
         _ => return None,
